@@ -319,6 +319,9 @@ func ruleGuardedIndexing(c *Ctx, rule string) {
 							if cond == nil {
 								return false
 							}
+							if lenPositiveEdge(b, succ, an.AP(call)) {
+								return true // len(loc) > 0 says the same as loc != nil
+							}
 							v, k, eq, ok := an.CondAtom(cond)
 							return ok && v == ssa.Value(call) && k.Value == nil && eq != onTrue
 						},
